@@ -115,6 +115,10 @@ NONSTRING = [1.0, True, 0, False, 1, 0.0, (1, 2), (1.0, 2.0)]   # equal by value
 
 
 def names_for(m, rot):
+    if rot == 10:
+        return ["same"] * m.n            # every node has the same name: plain DotExporter still declares every node
+    if rot == 11:
+        return [("x", 'y"')[i % 2] for i in range(m.n)]
     if rot == 9:
         return [NONSTRING[i % len(NONSTRING)] for i in range(m.n)]
     return [NAMES[(i * 3 + rot) % len(NAMES)] + ("" if (i + rot) % 4 else "#%d" % i) for i in range(m.n)]
@@ -286,13 +290,14 @@ def check_custom(t, m, names, nodes, known, ctx):
     for which in ("dot", "unique", "legacy"):
         for indent in (0, 2):
             for start in (0, m.n - 1):
-                e = mk(exps[which], nodes[start], graph="graph", name="g1", options=options, indent=indent, nodenamefunc=namef,
+                gname = ("g1", "my tree", "file-system:0", "bäume")[(indent + start + len(names)) % 4]   # appears verbatim, whatever it is
+                e = mk(exps[which], nodes[start], graph="graph", name=gname, options=options, indent=indent, nodenamefunc=namef,
                        nodeattrfunc=nattr, edgeattrfunc=eattr, edgetypefunc=etype)
                 lines = list(e)
                 t.c["custom_function_exports"] += 1
                 judge_export(t, m, names, which, lines, start, (), (), None, dict(ctx, custom=True, indent=indent), known,
                              id_of=lambda v: ('N:"%s"\\%d' % (names[v], v)) if v % 4 != 3 else str(1000 + v),
-                             opts={"indent": indent, "options": options, "graph": "graph", "name": "g1",
+                             opts={"indent": indent, "options": options, "graph": "graph", "name": gname,
                                    "nodeattr": lambda v: (None if v % 2 else 'shape=box, label="%s"' % v) if v % 3 else "",
                                    "edgeattr": lambda a, b: (None if b % 2 else "label=%d_%d" % (a, b)) if b % 3 else "",
                                    "edgetype": lambda a, b: "--" if b % 3 else "-x-"})
@@ -480,6 +485,7 @@ def run(tier):
     # node classes with value semantics / their own truth value (identifiers and admission must not depend on them)
     items += [(s, 2, kind) for kind in ("eqhash", "falsy", "weird", "tuplenode", "tuple0") for s in tree.shapes_upto(nmax - 1)]
     items += [(s, 9) for s in tree.shapes_upto(nmax - 1)]   # non-string names
+    items += [(s, r) for s in tree.shapes_upto(nmax - 1) for r in (10, 11)]   # colliding names
     t = core.Tally()
     jobs = [(MOD, "job", {"items": [it], "custom": True, "histories": True}) for it in items[::-1]]
     if tier == "thorough":
